@@ -15,7 +15,7 @@ RULE = (
     "Case = generated cooler with 1-3 float bin columns among weight/KR/VC/VC_SQRT/w2 holding positive values and "
     "NaNs x window (square on the diagonal, off-diagonal, rectangular with different row/column ranges of equal "
     "and unequal length, empty, full) x output form (dense, sparse, pixels, pixels joined) x balance (True, a "
-    "column name, a missing name) x divisive_weights (None, True, False) x storage mode x read chunk size. Oracle: "
+    "column name, a missing name) x divisive_weights (None, True, False) x storage mode x read chunk size x addressing (index slices, or - when each range lies inside one chromosome - one or two genomic regions through fetch). Oracle: "
     "dense(M)[win] * outer(w_rows, w_cols) with reciprocals when divisive (explicit, or by default for "
     "KR/VC/VC_SQRT), NaN wherever either weight is NaN; rtol 1e-12. Non-trivial = row range != column range, >=1 "
     "stored pixel in the window and >=1 NaN weight in range. Distinct by sha1 of the canonical case."
@@ -53,6 +53,22 @@ def cases(draw, max_chroms=3, max_bins=5):
     else:
         j0 = draw(st.integers(0, n))
         j1 = draw(st.integers(j0, n))
+    via = draw(st.sampled_from(["fetch", "slice"]))
+    if via == "fetch" and shape not in ("full", "empty"):
+        # genomic regions address bins of ONE chromosome: clip each range to the chromosome of its first bin
+        chrom_of = [r[0] for r in model.bins_rows(bt)]
+
+        def clip(a, b):
+            if a >= n:
+                a = n - 1
+            b = max(b, a + 1)          # a region always covers at least one bin
+            e = a
+            while e < n and chrom_of[e] == chrom_of[a]:
+                e += 1
+            return a, min(b, e)
+
+        i0, i1 = clip(i0, i1)
+        j0, j1 = clip(j0, j1)
     bal = draw(st.sampled_from(["True", "name", "name", "missing"]))
     if bal == "True":
         balance = True if "weight" in names else draw(st.sampled_from(names))
@@ -63,7 +79,7 @@ def cases(draw, max_chroms=3, max_bins=5):
     return {"part": "balanced", "bt": bt, "symmetric": symmetric, "rows": rows, "weights": weights,
             "win": [i0, i1, j0, j1], "out": draw(st.sampled_from(["dense", "sparse", "pixels", "pixels-join"])),
             "balance": balance, "divisive": draw(st.sampled_from([None, None, True, False])),
-            "chunksize": draw(st.sampled_from([1, 3, 10**7])), "via": draw(st.sampled_from(["slice", "slice", "fetch"])),
+            "chunksize": draw(st.sampled_from([1, 3, 10**7])), "via": via,
             # history: the Cooler object exists (and has been queried) before the weight columns are written / replaced
             # (True: raw HDF5 write as balance_cooler(store=True) does; "append*": through cooler.create.append, whole
             # columns or chunked=True with the column cut at generated points)
@@ -120,7 +136,18 @@ def check_balanced(case, ctx: Ctx):
             must_raise(f"balanced read with missing weight column {name!r} (out={out})", lambda: sel[i0:i1, j0:j1])
             ctx.record(case, True, ["missing-column", "out=" + out])
             return
-        res = call(f"matrix(balance={balance!r}, {out})[{i0}:{i1},{j0}:{j1}]", lambda: sel[i0:i1, j0:j1])
+        # the same window addressed by genomic regions, when each range lies inside one chromosome
+        br_ = model.bins_rows(bt)
+        regions = None
+        if case.get("via") == "fetch" and i1 > i0 and j1 > j0 and br_[i0][0] == br_[i1 - 1][0] and br_[j0][0] == br_[j1 - 1][0]:
+            regions = ((br_[i0][0], br_[i0][1], br_[i1 - 1][2]), (br_[j0][0], br_[j0][1], br_[j1 - 1][2]))
+        if regions is not None:
+            if regions[0] == regions[1] and case["chunksize"] == 3:
+                res = call(f"matrix(balance={balance!r}, {out}).fetch({regions[0]})", lambda: sel.fetch(regions[0]))
+            else:
+                res = call(f"matrix(balance={balance!r}, {out}).fetch{regions}", lambda: sel.fetch(*regions))
+        else:
+            res = call(f"matrix(balance={balance!r}, {out})[{i0}:{i1},{j0}:{j1}]", lambda: sel[i0:i1, j0:j1])
         divisive = case["divisive"] if case["divisive"] is not None else (name in DIVISIVE_DEFAULT)
         w = W[name]
         wr, wc = w[i0:i1], w[j0:j1]
@@ -163,7 +190,7 @@ def check_balanced(case, ctx: Ctx):
     nt = (i0, i1) != (j0, j1) and has and nanw
     ctx.record(case, nt, ["balanced", "out=" + out, "name=" + name, "divisive=" + str(case["divisive"]),
                           "same-range" if (i0, i1) == (j0, j1) else "diff-range-same-len" if i1 - i0 == j1 - j0 else "diff-len",
-                          "sym" if symmetric else "square", "weights=" + str(case.get("late_weights") or "at-creation")])
+                          "sym" if symmetric else "square", "via=" + ("fetch" if regions is not None else "slice"), "weights=" + str(case.get("late_weights") or "at-creation")])
 
 
 CHECKS = {"balanced": check_balanced}
